@@ -19,7 +19,8 @@ RULE_TEXT = ("Seeded operation sequences (5-25 ops) over InMemoryStateStore and 
              "get_state followed by mutation of the snapshot's top-level fields/keys, and 'restart' as the fault (reopen from the "
              "file / to_dict -> from_dict). Every return value and error class is compared with a plain nested-dict model, and the "
              "two backends with each other. Non-trivial: >=1 snapshot mutation or restart AND >=1 nested write; distinct = op-kind "
-             "sequence. This property has no interleaving in it: it is claimed only as model-checked histories with restart as the fault.")
+             "sequence. This property has no interleaving in it: it is claimed only as model-checked histories with restart as the fault."
+             " Key pool includes the name 'memory' (the serializer's known-unserializable key) holding plain JSON values.")
 COMPONENTS = {"real": ["workflows.context.state_store.InMemoryStateStore, llama_agents.server._store.sqlite.SqliteStateStore on stdlib sqlite3 (real C library, real file)"],
               "stub": [], "sim": ["loop (no concurrency used), op generator, nested-dict model"]}
 ASSUMPTIONS = ["only well-defined path operations are generated (existing list indices; intermediate dicts created on set)",
